@@ -303,7 +303,7 @@ func (r *Runner) runBip38() {
 		r.Do("bip38.dec", []string{sx(r.mutateStr(sm.s, b58Alphabet)), sx(sm.pw)}, "bip38-dec-mutated", true, "")
 	}
 	// EC-multiply: intermediate code, encryption with it, decryption (3 big + 2 small derivations)
-	for i := 0; i < r.N(1, 40); i++ {
+	for i := 0; i < r.N(2, 40); i++ { // at least one code without and one with lot/sequence
 		pw := passwords[i%len(passwords)]
 		var code string
 		var err error
